@@ -132,8 +132,59 @@ impl RealWorld
         pause();
         let mut c = self.base_cmd();
         c.args(args);
-        let out = c.stdin(Stdio::null()).output().map_err(|e| format!("cannot run {:?}: {}", self.exe, e))?;
-        Ok(RunOut { stdout: String::from_utf8_lossy(&out.stdout).to_string(), stderr: String::from_utf8_lossy(&out.stderr).to_string(), code: out.status.code() })
+        // output goes to files, not pipes: whatever the invocation prints, the harness can never be the one that blocks it
+        let n = COUNTER.fetch_add(1, Ordering::SeqCst);
+        let out_path = std::env::temp_dir().join(format!("rv-out-{}-{}", std::process::id(), n));
+        let err_path = std::env::temp_dir().join(format!("rv-err-{}-{}", std::process::id(), n));
+        let of = std::fs::File::create(&out_path).map_err(|e| format!("{}", e))?;
+        let ef = std::fs::File::create(&err_path).map_err(|e| format!("{}", e))?;
+        let mut child = c.stdin(Stdio::null()).stdout(of).stderr(ef).spawn().map_err(|e| format!("cannot run {:?}: {}", self.exe, e))?;
+        let t0 = Instant::now();
+        let mut last_cpu = u64::MAX;
+        let mut idle_samples = 0;
+        let status = loop
+        {
+            match child.try_wait()
+            {
+                Ok(Some(st)) => break Ok(st),
+                Ok(None) => {}
+                Err(e) => break Err(format!("wait: {}", e)),
+            }
+            let el = t0.elapsed();
+            if el > Duration::from_secs(20)
+            {
+                // not a time limit: the invocation is declared hung only when neither it nor any process below it has used
+                // CPU time and none is runnable over 8 consecutive samples (16 s); a slow machine keeps it "busy"
+                let (cpu, runnable) = tree_cpu(child.id());
+                if cpu == last_cpu && !runnable { idle_samples += 1; } else { idle_samples = 0; }
+                last_cpu = cpu;
+                if idle_samples >= 8
+                {
+                    kill_tree(child.id());
+                    let _ = child.kill();
+                    let _ = child.wait();
+                    break Err(format!("`ruler {}` did not return: after {} s the process and everything below it sit idle (no CPU time used, nothing runnable) — a hang", args.join(" "), el.as_secs()));
+                }
+                if el > Duration::from_secs(900)
+                {
+                    kill_tree(child.id());
+                    let _ = child.kill();
+                    let _ = child.wait();
+                    break Err("harness: invocation still busy after 900 s (inconclusive)".to_string());
+                }
+                std::thread::sleep(Duration::from_secs(2));
+            }
+            else
+            {
+                std::thread::sleep(Duration::from_millis(if el < Duration::from_millis(200) { 2 } else { 20 }));
+            }
+        };
+        let stdout = String::from_utf8_lossy(&std::fs::read(&out_path).unwrap_or_default()).to_string();
+        let stderr = String::from_utf8_lossy(&std::fs::read(&err_path).unwrap_or_default()).to_string();
+        let _ = std::fs::remove_file(&out_path);
+        let _ = std::fs::remove_file(&err_path);
+        let st = status?;
+        Ok(RunOut { stdout, stderr, code: st.code() })
     }
 
     pub fn build(&self, goal: Option<&str>) -> Result<RunOut, String>
@@ -258,6 +309,68 @@ impl Drop for RealWorld
     fn drop(&mut self)
     {
         let _ = std::fs::remove_dir_all(&self.dir);
+    }
+}
+
+/// (sum of utime+stime clock ticks, any thread runnable or in disk wait) over the process `pid` and all its descendants
+fn tree_cpu(pid: u32) -> (u64, bool)
+{
+    let mut total = 0u64;
+    let mut runnable = false;
+    let mut todo = vec![pid];
+    let mut seen = std::collections::BTreeSet::new();
+    while let Some(p) = todo.pop()
+    {
+        if !seen.insert(p) { continue; }
+        if let Ok(tasks) = std::fs::read_dir(format!("/proc/{}/task", p))
+        {
+            for t in tasks.flatten()
+            {
+                if let Ok(stat) = std::fs::read_to_string(t.path().join("stat"))
+                {
+                    // fields after the command name in parentheses: state is the first, utime/stime the 12th and 13th
+                    if let Some(pos) = stat.rfind(')')
+                    {
+                        let f: Vec<&str> = stat[pos + 1..].split_whitespace().collect();
+                        if f.len() > 13
+                        {
+                            if f[0] == "R" || f[0] == "D" { runnable = true; }
+                            total += f[11].parse::<u64>().unwrap_or(0) + f[12].parse::<u64>().unwrap_or(0);
+                        }
+                    }
+                }
+                if let Ok(kids) = std::fs::read_to_string(t.path().join("children"))
+                {
+                    todo.extend(kids.split_whitespace().filter_map(|k| k.parse::<u32>().ok()));
+                }
+            }
+        }
+    }
+    (total, runnable)
+}
+
+fn kill_tree(pid: u32)
+{
+    let mut todo = vec![pid];
+    let mut all = vec![];
+    while let Some(p) = todo.pop()
+    {
+        if all.contains(&p) { continue; }
+        all.push(p);
+        if let Ok(tasks) = std::fs::read_dir(format!("/proc/{}/task", p))
+        {
+            for t in tasks.flatten()
+            {
+                if let Ok(kids) = std::fs::read_to_string(t.path().join("children"))
+                {
+                    todo.extend(kids.split_whitespace().filter_map(|k| k.parse::<u32>().ok()));
+                }
+            }
+        }
+    }
+    for p in all.iter().skip(1)
+    {
+        let _ = Command::new("kill").arg("-9").arg(format!("{}", p)).stdout(Stdio::null()).stderr(Stdio::null()).status();
     }
 }
 
